@@ -59,9 +59,9 @@ SHRINK_ORDER = ['ops', 'sched', 'cfg', 'data']
 
 KINDS = ['mass2d', 'stiff2d', 'mass3d', 'stiff3d', 'divdiv2d', 'l2f2d',
          'mass1d', 'conv2d', 'field2d', 'vec21', 'pg2d', 'bdry2d', 'fun2d', 'vec22p',
-         'fieldgrad2d', 'vfun2d', 'divdiv3d', 'fieldvec2d']
+         'fieldgrad2d', 'vfun2d', 'divdiv3d', 'fieldvec2d', 'vec1d', 'th2d']
 COMPILED = ['mass1d', 'conv2d', 'field2d', 'vec21', 'pg2d', 'bdry2d', 'fun2d', 'vec22p', 'fieldgrad2d', 'vfun2d',
-            'fieldvec2d']
+            'fieldvec2d', 'vec1d', 'th2d']
 ONDEMAND = ['conv2d', 'field2d', 'mass2d']
 
 
@@ -112,6 +112,18 @@ def make_form(kind):
         v = V.basisfuns(components=(2,))
         f = V.input('f', updatable=True)
         V.add(f * (v[0] + 2.0 * v[1]) * dx)
+        return V
+    if kind == 'th2d':
+        # Taylor-Hood style: vector-valued trial function in space 0, scalar test function in a DIFFERENT space 1
+        V = VForm(2)
+        u, q = V.basisfuns(components=(2, 1), spaces=(0, 1))
+        V.add((div(u) * q + 0.25 * u[1] * q.dx(0)) * dx)
+        return V
+    if kind == 'vec1d':
+        # 1D vector-valued form (generic_assemble_core_vec_1d), symmetric
+        V = VForm(1)
+        u, v = V.basisfuns(components=(2, 2))
+        V.add((inner(u, v) + u[0].dx(0) * v[0].dx(0) + 0.5 * (u[0] * v[1] + u[1] * v[0])) * dx)
         return V
     if kind == 'vec21':
         V = VForm(2)
@@ -357,18 +369,22 @@ class Case:
             self.cls = pc.compile_vform(make_form(kind))
             self.cls_od = pc.compile_vform(make_form(kind), on_demand=True) if kind in ONDEMAND else None
         self.fields = fields(self.dim)
+        # ONE field object whose coefficient array is overwritten in place between calls (a user who
+        # keeps a single function object and updates its values)
+        from pyiga import bspline as _bs
+        self.mfield = _bs.BSplineFunc(self.fields[0].kvs, np.array(self.fields[0].coeffs, copy=True))
         self.state = {'f': 0, 'a': 1.5, 'b': (0.5, -1.0)}
         self.kvs1 = None
-        if kind == 'pg2d':
+        if kind in ('pg2d', 'th2d'):
             from pyiga import bspline
             self.kvs1 = tuple(bspline.KnotVector(np.concatenate(([kv.kv[0]], kv.kv, [kv.kv[-1]])), kv.p + 1) for kv in self.kvs)
         self.boundary = None
         if kind == 'bdry2d':
             self.boundary = [(0, 0), (0, 1), (1, 0), (1, 1)][s.choice(4)]
         self.arity = 1 if kind in ('l2f2d', 'fun2d', 'vfun2d') else 2
-        self.vector = kind in ('divdiv2d', 'vec21', 'vec22p', 'divdiv3d', 'fieldvec2d')
+        self.vector = kind in ('divdiv2d', 'vec21', 'vec22p', 'divdiv3d', 'fieldvec2d', 'vec1d', 'th2d')
         self.symmetric_form = kind in ('mass1d', 'mass2d', 'mass3d', 'stiff2d', 'stiff3d', 'divdiv2d', 'field2d', 'bdry2d',
-                                       'vec22p', 'divdiv3d', 'fieldvec2d')
+                                       'vec22p', 'divdiv3d', 'fieldvec2d', 'vec1d')
         self._ref = {}
 
     def args(self, st):
@@ -504,6 +520,8 @@ def _run(ctx, kind, fam, ctl):
     asm = case.instantiate(st)
     m, n = case.shape()
     updated = False
+    wrapper = [None]
+    ondemand = {}
     sig = lambda what, **kw: dict(what=what, kind=kind, **kw)     # noqa
     nops = 3 + o.choice(10)
     tolrel = 1e-13
@@ -529,6 +547,8 @@ def _run(ctx, kind, fam, ctl):
         ops = [('assemble', 6), ('threads', 2)]
         if case.arity == 2:
             ops += [('subset', 4), ('entry', 1)]
+            if not case.vector:
+                ops += [('rows', 2)]
         if kind in ('field2d', 'fun2d', 'fieldgrad2d', 'vfun2d', 'fieldvec2d'):
             ops += [('update', 3), ('wrapper', 2)]
         if kind in ('conv2d', 'vec22p'):
@@ -547,8 +567,14 @@ def _run(ctx, kind, fam, ctl):
             continue
         if op == 'update':
             st['f'] = (st['f'] + 1 + o.choice(2)) % 3
-            ctx.log(['update', 'f%d' % st['f']])
-            r = ctx.call('update', asm.update, f=case.fields[st['f']])
+            inplace = bool(o.choice(3) == 0)
+            ctx.log(['update', 'f%d' % st['f'], 'same-object-mutated' if inplace else 'new-object'])
+            fobj = case.fields[st['f']]
+            if inplace:
+                case.mfield.coeffs[...] = case.fields[st['f']].coeffs
+                fobj = case.mfield
+                ctx.count('op.update.inplace')
+            r = ctx.call('update', asm.update, f=fobj)
             if r is RAISED():
                 return
             updated = True
@@ -621,6 +647,28 @@ def _run(ctx, kind, fam, ctl):
                 cmp_exact(D, want, 'matrix-differs', 'format %s layout %s differs bitwise from the entry-by-entry reference'
                           % (fmt, layout), fmt=fmt, layout=layout)
             continue
+        if op == 'rows':
+            # only selected rows (the route hierarchical assembly takes): _assemble_partial_rows
+            from pyiga import _hdiscr
+            rk = o.weighted([('random', 5), ('single', 1), ('all', 1), ('block', 2)])
+            if rk == 'single':
+                rows = [data.choice(m)]
+            elif rk == 'all':
+                rows = list(range(m))
+            elif rk == 'block':
+                a = data.choice(m)
+                rows = list(range(a, min(m, a + 1 + data.choice(m))))
+            else:
+                rows = sorted(set(data.choice(m) for _ in range(1 + data.choice(m))))
+            ctx.log(['rows', rk, rows, pyiga.get_max_threads()])
+            ctx.count('op.rows')
+            A = ctx.call('_assemble_partial_rows', _hdiscr._assemble_partial_rows, asm, np.array(rows, dtype=int))
+            if A is RAISED():
+                return
+            want = np.zeros_like(R)
+            want[rows] = R[rows]
+            cmp_exact(todense(A), want, 'rows-differ', 'assembly of the selected rows %s differs from the reference rows' % (rows,))
+            continue
         if op == 'entry':
             i, j = data.choice(m), data.choice(n)
             if case.vector:
@@ -667,12 +715,33 @@ def _run(ctx, kind, fam, ctl):
             continue
         if op == 'wrapper':
             st['f'] = (st['f'] + 1) % 3
-            ctx.log(['Assembler.assemble', 'f%d' % st['f']])
-            W = ctx.call('Assembler', assemble.Assembler, case.cls, case.kvs, args=case.args(dict(st, f=(st['f'] + 1) % 3)),
-                         updatable=['f'])
-            if W is RAISED():
-                return
-            A = ctx.call('Assembler.assemble', W.assemble, f=case.fields[st['f']])
+            # ONE long-lived high-level Assembler per run, re-used across calls (its symmetric flag is fixed at
+            # construction; format and layout vary per call)
+            if wrapper[0] is None:
+                wsym = bool(o.choice(2)) and case.symmetric_form and case.arity == 2
+                W = ctx.call('Assembler', assemble.Assembler, case.cls, case.kvs, args=case.args(dict(st, f=(st['f'] + 1) % 3)),
+                             updatable=['f'], symmetric=wsym)
+                if W is RAISED():
+                    return
+                wrapper[0] = (W, wsym)
+                ctx.count('op.wrapper.created')
+            W, wsym = wrapper[0]
+            wfmt = ['csr', 'csc', 'coo'][o.choice(3)]
+            explicit = bool(o.choice(2))
+            inplace = bool(o.choice(2))
+            ctx.log(['Assembler.assemble', 'f%d' % st['f'], wsym, wfmt, explicit, 'same-object-mutated' if inplace else 'new-object'])
+            fobj = case.fields[st['f']]
+            if inplace:
+                case.mfield.coeffs[...] = case.fields[st['f']].coeffs
+                fobj = case.mfield
+                ctx.count('op.wrapper.inplace')
+            if explicit:
+                r = ctx.call('Assembler.update', W.update, f=fobj)
+                if r is RAISED():
+                    return
+                A = ctx.call('Assembler.assemble', W.assemble, format=wfmt)
+            else:
+                A = ctx.call('Assembler.assemble', W.assemble, format=wfmt, f=fobj)
             if A is RAISED():
                 return
             # the long-lived object follows the model too
@@ -685,7 +754,7 @@ def _run(ctx, kind, fam, ctl):
                 R = np.moveaxis(R, -1, 0)
             elif case.vector:
                 R = blocked_dense(R)[1]
-            cmp_exact(todense(A) if case.arity == 2 else np.asarray(A), R, 'wrapper-differs',
+            (cmp_close if wsym else cmp_exact)(todense(A) if case.arity == 2 else np.asarray(A), R, 'wrapper-differs',
                       'Assembler(...).assemble(f=...) differs from constructing afresh')
             ctx.count('op.wrapper')
             continue
@@ -697,10 +766,27 @@ def _run(ctx, kind, fam, ctl):
                 a = data.choice(nc)
                 b = a + 1 + data.choice(nc - a)
                 bbox.append((a, b))
-            ctx.log(['ondemand', [list(b) for b in bbox]])
-            od = ctx.call('on-demand constructor', case.instantiate, st, True, tuple(bbox))
-            if od is RAISED():
-                return
+            bbox = tuple(bbox)
+            if ondemand and o.choice(2):
+                # re-use a long-lived on-demand instance created earlier in this history: bring it up to date
+                # with update()/update_params() instead of constructing afresh
+                bbox = sorted(ondemand)[o.choice(len(ondemand))]
+                od, ost = ondemand[bbox]
+                ctx.log(['ondemand-reuse', [list(b) for b in bbox]])
+                if kind == 'field2d' and ost['f'] != st['f']:
+                    if ctx.call('on-demand update', od.update, f=case.fields[st['f']]) is RAISED():
+                        return
+                if kind == 'conv2d' and ost['a'] != st['a']:
+                    if ctx.call('on-demand update_params', od.update_params, a=st['a']) is RAISED():
+                        return
+                ondemand[bbox] = (od, dict(st))
+                ctx.count('op.ondemand.reused')
+            else:
+                ctx.log(['ondemand', [list(b) for b in bbox]])
+                od = ctx.call('on-demand constructor', case.instantiate, st, True, bbox)
+                if od is RAISED():
+                    return
+                ondemand[bbox] = (od, dict(st))
             # functions whose support lies inside the box, per direction
             inside = []
             for kv, (a, b) in zip(case.kvs, bbox):
